@@ -137,12 +137,33 @@ def expected_sigma(prog, I, board, prefix=''):
 
 
 def sqb_terms(h):
-    """row -> (BV, gate) of the bulk square terms of a hash form"""
+    """row -> (BV, gate) of the bulk square terms of a hash form; several unconditional bulk terms of one row are one term
+    over the XOR of their square sets (the table term is linear in the set)"""
     out = {}
     for sym, g in h.terms:
         if sym[0] == 'SQB':
-            out[sym[1]] = (sym[2], g)
+            if sym[1] in out and out[sym[1]][1] is C1 and g is C1:
+                old = out[sym[1]][0]
+                out[sym[1]] = (BV([B.bxor(x, y) for x, y in zip(old.bits, sym[2].bits)]), C1)
+            else:
+                out[sym[1]] = (sym[2], g)
     return out
+
+
+def exact_equal(x, y):
+    """two bits are the same Boolean function (decided only for exact truth tables)"""
+    if x is y:
+        return True
+    if x.kind not in 'sc' or y.kind not in 'sc':
+        return False
+    vs = sorted(set(B.rawvars(x)) | set(B.rawvars(y)), key=repr)
+    if len(vs) > 16:
+        return False
+    for m in range(1 << len(vs)):
+        asg = {v: (m >> j) & 1 for j, v in enumerate(vs)}
+        if B._ev(x, asg) != B._ev(y, asg):
+            return False
+    return True
 
 
 def other_terms(h):
@@ -155,6 +176,8 @@ def same_bv_semantics(a, b):
         return True
     for x, y in zip(a.bits, b.bits):
         if x is y:
+            continue
+        if B.equiv_conj(x, y):
             continue
         if B.deps(x) != B.deps(y) or real_lits(x) != real_lits(y):
             return False
@@ -223,6 +246,7 @@ def check_move_hash(ctx, prog, I, mvs):
                        'new board (k = step before, k\' = step stored in the successor)')
     fn = prog.one('GameState::take_action')
     GS = 'engine::GameState'
+    pending = []
     for gold in (True, False):
         for step in range(4):
             for (s, d) in mvs:
@@ -262,6 +286,17 @@ def check_move_hash(ctx, prog, I, mvs):
                         continue
                     bv, g = got[row]
                     ok = g is C1 and same_bv_semantics(bv, e)
+                    if not ok:
+                        # a different way of computing the same toggles (e.g. old and new values over a mask of changed squares):
+                        # the equality of the two square sets is decided with exact truth tables for this mode (second pass)
+                        bad = next((i for i in range(64) if bv.bits[i] is not e.bits[i]), None)
+                        pending.append(((gold, step, s, d), row, mode,
+                                        'step %s%s: row %d (%s %s) square %s: hash term toggled under %s, but the board row changes under %s'
+                                        % (G.name(s), d, row, 'gold' if row < 6 else 'silver', ROW_TYPES[row % 6],
+                                           G.name(bad) if bad is not None else '?',
+                                           fmt_deps(B.deps(bv.bits[bad])) if bad is not None else g,
+                                           fmt_deps(B.deps(e.bits[bad])) if bad is not None else '')))
+                        continue
                     ctx.ob('[%s] SQUARE row %d toggled exactly where the row differs between old and new board' % (mode, row), ok,
                            sample=(row == 5 and step == 0 and s == mvs[0][0] and gold))
                     if not ok:
@@ -273,6 +308,84 @@ def check_move_hash(ctx, prog, I, mvs):
                                        G.name(bad) if bad is not None else '?',
                                        fmt_deps(B.deps(bv.bits[bad])) if bad is not None else g,
                                        fmt_deps(B.deps(e.bits[bad])) if bad is not None else ''))
+    _second_pass(ctx, prog, fn, pending)
+
+
+_POOL_PROG = [None]
+
+
+def _exact_worker(key):
+    gold, step, s, d = key
+    try:
+        _exact_mode(_POOL_PROG[0], gold, step, s, d, 0)
+        return key, _EXACT_CACHE.get((id(_POOL_PROG[0]), gold, step, s, d), {})
+    except Exception:
+        return key, {}
+
+
+def _exact_modes_parallel(prog, modes):
+    import multiprocessing as mp
+    import os
+    _POOL_PROG[0] = prog
+    n = min(len(modes), max(1, (os.cpu_count() or 2) - 1), 15)
+    if n <= 1:
+        return dict(_exact_worker(k) for k in modes)
+    ctxmp = mp.get_context('fork')
+    with ctxmp.Pool(n) as pool:
+        return dict(pool.map(_exact_worker, modes, chunksize=1))
+
+
+def _second_pass(ctx, prog, fn, pending):
+    if not pending:
+        return
+    modes = sorted(set(p[0] for p in pending))
+    ctx.analysed['hash_modes_decided_exactly'] = len(modes)
+    results = _exact_modes_parallel(prog, modes)
+    for key, row, mode, msg in pending:
+        ok = bool(results.get(key, {}).get(row))
+        ctx.ob('[%s] SQUARE row %d toggled exactly where the row differs between old and new board (exact tables)' % (mode, row), ok)
+        if not ok:
+            ctx.finding('C08.3', fn, 'diff-coverage:%d' % row, msg)
+
+
+_EXACT_CACHE = {}
+
+
+def _exact_mode(prog, gold, step, s, d, row):
+    """Re-run one (side, step, move) mode with wide exact tables and compare the toggled square set of `row` with the row-wise
+    difference of old and new board as Boolean functions."""
+    key = (id(prog), gold, step, s, d)
+    res = _EXACT_CACHE.get(key)
+    if res is None:
+        saveK = B.K
+        B.K = 14
+        try:
+            I2 = inputs.make_interp(prog, fuel=20000000)
+            I2.budget_s = 60
+            gsv = inputs.play_state(prog, gold, step, trapped='sym')
+            r = take(I2, prog, gsv, move_action(prog, s, d))
+            h = fld(prog, 'engine::GameState', r, 'hash').fields[0]
+            newb = fld(prog, 'engine::GameState', r, 'piece_board').fields[0]
+            exp = expected_diff(prog, I2, inputs.board(prog), newb)
+            got = sqb_terms(h) if isinstance(h, HF) else {}
+            res = {}
+            rows = {}
+            for sym, g in (h.terms if isinstance(h, HF) else ()):
+                if sym[0] == 'SQB':
+                    # a gated term toggles its squares only under the gate; several terms of one row add up (XOR)
+                    bits_ = [B.band(g, x) for x in sym[2].bits]
+                    rows[sym[1]] = bits_ if sym[1] not in rows else [B.bxor(x, y) for x, y in zip(rows[sym[1]], bits_)]
+            for rw in range(12):
+                if rw in rows:
+                    res[rw] = all(exact_equal(x, y) for x, y in zip(rows[rw], exp[rw].bits))
+                else:
+                    res[rw] = all(b is C0 for b in exp[rw].bits)
+        except Undecided:
+            res = {}
+        finally:
+            B.K = saveK
+        _EXACT_CACHE[key] = res
+    return bool(res.get(row))
 
 
 def check_pass_hash(ctx, prog, I):
